@@ -339,6 +339,9 @@ fn get_filename_from_diff_header_line_file_path(path: &str) -> Option<&str> {
     })
 }
 
+/// Appended to the name of a file that a "Binary files ... differ" line reports.
+pub const BINARY_FILE_NOTE: &str = " (binary file)";
+
 fn parse_diff_header_line(line: &str, git_diff_name: bool) -> (String, FileEvent) {
     // (A path that git quotes - 'core.quotepath' - is quoted in the rename/copy lines as it is in
     // the "---"/"+++" lines; the quotes are removed from all of them alike.)
@@ -445,13 +448,21 @@ pub fn get_file_change_description_from_file_paths(
             plus_file
         )
     } else {
-        let format_file = |file| {
+        let format_file = |file: &str| {
+            // The note that marks a binary file is appended to the name (see
+            // `handle_diff_header_misc_line`): it is shown, but it is not part of the path
+            // that the name is replaced by, or links to.
+            let (file, note) = match file.strip_suffix(BINARY_FILE_NOTE) {
+                Some(file) => (file, BINARY_FILE_NOTE),
+                None => (file, ""),
+            };
             let formatted_file = if let Some(regex_replacement) = &config.file_regex_replacement {
                 regex_replacement.execute(file)
             } else {
                 Cow::from(file)
             };
-            match (config.hyperlinks, utils::path::absolute_path(file, config)) {
+            let formatted_file = match (config.hyperlinks, utils::path::absolute_path(file, config))
+            {
                 (true, Some(absolute_path)) => features::hyperlinks::format_osc8_file_hyperlink(
                     absolute_path,
                     None,
@@ -459,7 +470,8 @@ pub fn get_file_change_description_from_file_paths(
                     config,
                 ),
                 _ => formatted_file,
-            }
+            };
+            format!("{formatted_file}{note}")
         };
         match (minus_file, plus_file, minus_file_event, plus_file_event) {
             (minus_file, plus_file, _, _) if minus_file == plus_file => format!(
